@@ -293,7 +293,7 @@ func libModSet(vc *VC, callee *ssa.Function, c *ssa.CallCommon) (map[string]bool
 	switch {
 	case strings.HasPrefix(k, "sync.(*Mutex)"), strings.HasPrefix(k, "sync.(*RWMutex)"):
 		return map[string]bool{}, true
-	case k == "taskloop.(*Loop).Run" && vc.S.Contracts[k] == nil:
+	case k == "taskloop.(*Loop).Run":
 		set := map[string]bool{}
 		if mc, ok := c.Args[2].(*ssa.MakeClosure); ok {
 			for f := range vc.modSet(mc.Fn.(*ssa.Function), map[*ssa.Function]bool{}) {
@@ -400,7 +400,7 @@ func (fr *Frame) libModel(callee *ssa.Function, args []Val, rt types.Type, pos t
 		fr.cur.heap = vc.heapSet(fr.cur.heap, "E_uint8", vc.define("E_uint8", vc.famSort["E_uint8"], "(store "+cur+" "+b.L[0]+" "+inner+")"))
 		return Val{Typ: rt}, true
 	}
-	if k == "taskloop.(*Loop).Run" && vc.S.Contracts[k] == nil {
+	if k == "taskloop.(*Loop).Run" {
 		// As seen from package ice (DESIGN 3.6): either the task ran exactly once to completion on
 		// the loop (nil returned) or it did not run (non-nil error). Tasks of one loop do not
 		// overlap with each other (B-loop-mutex, assumed).
